@@ -346,7 +346,7 @@ func init() {
 	}
 	models["(*bufio.Reader).Read"] = func(e *Exec, st *State, fr *Frame, fn *ssa.Function, args []Value, pos token.Pos) []Outcome {
 		recv := &IfaceV{Tid: IntConst(1), Ref: streamRef(args[0])}
-		outs, _ := e.readModel(st, fr, recv, args[1].(*SliceV), pos)
+		outs, _ := e.readModel(st, fr, recv, args[1].(*SliceV), pos, false) // bufio hands out buffered data first, the error on the next call
 		return outs
 	}
 	models["(*bufio.Writer).Flush"] = func(e *Exec, st *State, fr *Frame, fn *ssa.Function, args []Value, pos token.Pos) []Outcome {
@@ -460,7 +460,7 @@ func (e *Exec) invokeModel(st *State, fr *Frame, cc *ssa.CallCommon, recv *Iface
 	case cc.Method.Name() == "Read" && (it == "io.Reader" || it == "io.ReadWriter" || it == "io.ReadCloser"):
 		// io.Reader contract: a read delivers between 1 and len(p) of the remaining bytes (short reads are allowed),
 		// or fails with the terminal error when nothing is left
-		return e.readModel(st, fr, recv, args[0].(*SliceV), pos)
+		return e.readModel(st, fr, recv, args[0].(*SliceV), pos, true)
 	case false:
 		buf := args[0].(*SliceV)
 		ref := recv.Ref
@@ -594,8 +594,8 @@ func init() {
 
 // readModel: io.Reader.Read contract: a read delivers between 1 and len(p) of the remaining bytes (short reads are
 // allowed), or fails with the terminal error when nothing is left.
-func (e *Exec) readModel(st *State, fr *Frame, recv *IfaceV, buf *SliceV, pos token.Pos) ([]Outcome, bool) {
-	e.note("trusted: io.Reader.Read contract over ghost byte streams (short reads allowed)")
+func (e *Exec) readModel(st *State, fr *Frame, recv *IfaceV, buf *SliceV, pos token.Pos, dataWithErr bool) ([]Outcome, bool) {
+	e.note("trusted: io.Reader.Read contract over ghost byte streams (short reads allowed; an arbitrary reader may deliver its last bytes together with the terminal error)")
 	ref := recv.Ref
 	r := e.rd(st, ref)
 	avail := BVSub(r.n, r.pos)
@@ -610,6 +610,11 @@ func (e *Exec) readModel(st *State, fr *Frame, recv *IfaceV, buf *SliceV, pos to
 	c := comp{"", BV(8)}
 	st.setArrayOf(buf.Elem, c, buf.Arr, ArrayCopy(st.arrayOf(buf.Elem, c, buf.Arr), buf.Off, r.data, r.pos, n))
 	fail := And(Not(empty), atEnd)
+	if dataWithErr {
+		// io.Reader allows n > 0 together with the error once the stream is exhausted by this very call
+		early := Fresh("errWithData", SBool)
+		fail = Or(fail, And(Not(empty), Not(atEnd), Eq(n, avail), early))
+	}
 	term := &IfaceV{Tid: r.errT, Ref: r.errR}
 	e.ioerrRecord(st, fail, term)
 	return one(st, n, &IfaceV{Tid: Ite(fail, term.Tid, IntConst(0)), Ref: Ite(fail, term.Ref, IntConst(0))}), true
